@@ -181,7 +181,7 @@ class LoadConfigModular(Contract):
         t = I.fresh("cfg_timeout")
         I.assume(z3.Or(V.is_none(t), V.is_real(t)))
         I.ghost["loaded"] = dict(params=p, name=args[1] if len(args) > 1 else kwargs.get("server_name"),
-                                 path=args[0] if args else kwargs.get("config_path"))
+                                 path=args[0] if args else kwargs.get("config_path"), command=cmd, args=a, env=env)
         return V.VTuple([p, t])
 
 
@@ -221,6 +221,14 @@ class StdioClientModular(Contract):
         I.oblige(f"{pfx}.stdio_client.launches_exactly_the_loaded_configuration",
                  z3.BoolVal(loaded is not None) if loaded is None else server == loaded["params"],
                  watch={"argument": server})
+        if loaded is not None:
+            # ... and still carrying what the loader read: command, args and env are not edited on the way to the spawn
+            same = []
+            for f in ("command", "args", "env"):
+                v, h = I.get_field(server, f)
+                same.append(z3.And(h, v == loaded[f]))
+            I.oblige(f"{pfx}.stdio_client.configured_command_args_env_reach_the_spawn_unedited", z3.And(same),
+                     watch={"argument": server})
         return E.new_env_object(I, CLIENT_CM, server=server)
 
 
